@@ -52,8 +52,8 @@ impl Property for C08 {
     }
     fn plan(&self, suite: SuiteId, tier: Tier) -> Vec<(u32, u32)> {
         match (tier, suite.slow()) {
-            (Tier::Quick, false) => (0..9).map(|s| (s, 1)).chain([(12, 1)]).collect(),
-            (Tier::Quick, true) => vec![(0, 1), (1, 1), (3, 1)],
+            (Tier::Quick, false) => (0..14).map(|s| (s, 3)).collect(),
+            (Tier::Quick, true) => vec![(0, 1), (1, 1), (2, 1), (3, 1), (4, 1), (12, 1)],
             (Tier::Thorough, false) => (0..14).map(|s| (s, 8)).collect(),
             (Tier::Thorough, true) => (0..9).map(|s| (s, 2)).collect(),
         }
